@@ -77,7 +77,7 @@ Definition record (l : sloc) (lev prev curr : nat) (p : spc) : sloc :=
 
 (* after the search: duplicate -> false, otherwise start linking at level 0 *)
 Definition decide (l : sloc) : sloc :=
-  let nx := nth 0 (sl_curr l) 0 in
+  let nx := getn (sl_curr l) 0 in
   if negb (nx =? 0) && negb (sl_k l <? key nx)%Z then finish_op l 1 0 else goto l (SStore 0).
 (* after my_max_height is settled: link the upper levels or finish *)
 Definition after_max (l : sloc) : sloc :=
@@ -92,8 +92,8 @@ Definition sstep (tid : nat) (g : sshared) (l : sloc) : option (sshared * sloc *
       let m := s_max g in
       (* levels [m, h) of the arrays are filled with head / null *)
       let l1 := mkSL (sl_pc l) (sl_k l) (sl_x l)
-                     (map (fun i => if (m <=? i) && (i <? h) then 0 else nth i (sl_prev l) 0) (seq 0 MAXL))
-                     (map (fun i => if (m <=? i) && (i <? h) then 0 else nth i (sl_curr l) 0) (seq 0 MAXL))
+                     (map (fun i => if (m <=? i) && (i <? h) then 0 else getn (sl_prev l) i) (seq 0 MAXL))
+                     (map (fun i => if (m <=? i) && (i <? h) then 0 else getn (sl_curr l) i) (seq 0 MAXL))
                      (sl_todo l) (sl_gh l) (sl_res l) in
       Some (g, match m with O => decide l1 | S m' => goto l1 (SSearch m' 0) end, [t; 1; 1; zn m; zn m; 1]%Z)
   | SSearch lev prev =>
@@ -107,8 +107,8 @@ Definition sstep (tid : nat) (g : sshared) (l : sloc) : option (sshared * sloc *
   | SStore lev =>
       Some (g, goto l (SCas lev), [t; var_next (sl_x l) lev; 2; 0; zn (getn (sl_curr l) lev); 1]%Z)
   | SCas lev =>
-      let p := nth lev (sl_prev l) 0 in
-      let e := nth lev (sl_curr l) 0 in
+      let p := getn (sl_prev l) lev in
+      let e := getn (sl_curr l) lev in
       let c := nxt g p lev in
       if c =? e then
         let g' := link g p lev (sl_x l) in
@@ -133,7 +133,7 @@ Definition sstep (tid : nat) (g : sshared) (l : sloc) : option (sshared * sloc *
   | SRefind level lev prev =>
       let c := nxt g prev lev in
       let l' := if negb (c =? 0) && (key c <? sl_k l)%Z then goto l (SRefind level lev c)
-                else if S lev <? h then record l lev prev c (SRefind level (S lev) (nth (S lev) (sl_prev l) 0))
+                else if S lev <? h then record l lev prev c (SRefind level (S lev) (getn (sl_prev l) (S lev)))
                 else record l lev prev c (SStore level) in
       Some (g, l', [t; var_next prev lev; 1; zn c; zn c; 1]%Z)
   | SFLoadMax =>
